@@ -329,6 +329,40 @@ fn main() {
             }
         }
     }
+    // a matcher with an observable effect (it panics) behind patterns that may accept first: the
+    // matchers of later patterns are not even consulted once an earlier pattern has accepted
+    for masks in all_mask_lists(2) {
+        if masks.is_empty() {
+            continue;
+        }
+        for tail in [vec![MASK_PANICKING_MATCHER], vec![MASK_PANICKING_MATCHER, 7]] {
+            let mut list = masks.clone();
+            list.extend(tail);
+            let clauses = list
+                .iter()
+                .enumerate()
+                .map(|(pi, mask)| ClauseSpec::Single {
+                    m: M::A,
+                    entry: Entry::EachCall,
+                    pat: PatSpec {
+                        mask: *mask,
+                        segs: vec![Seg {
+                            resp: Resp::Ret(1000 + pi as u32),
+                            quant: Quant::Open,
+                        }],
+                    },
+                })
+                .collect();
+            cases.push(Case {
+                label: format!("effectful-matcher-behind/{list:?}"),
+                config: Config { partial: false, clauses },
+                histories: HistGen::All {
+                    alphabet: vec![Call::new(M::A, 0), Call::new(M::A, 1), Call::new(M::A, 2)],
+                    depth: 2,
+                },
+            });
+        }
+    }
     // every tuple arity: n patterns of one method composed as one real n-tuple (vh::spec::compose);
     // for every k the k-th is the first that accepts
     for total in 2..=16usize {
